@@ -11,7 +11,16 @@ package main
 //                       where x comes from, the method, whether `stack` is passed and assigned back
 //   c20LoaderSelectors / c20InternalizeSelectors
 //                       names of struct fields of non-scalar type selected in the reference walk of the
-//                       loader and of InternalizeRefs (the positions each of them descends into)
+//                       loader (ResolveRefsIn and every resolve… routine it reaches, the drill machinery
+//                       excluded) and of InternalizeRefs (the positions each of them descends into)
+//   c20WalkFuncs        the functions of the loader's walk found by that closure
+//   c20EmptyChecks      per resolve*Ref routine: the condition of its first statement when that is an `if`
+//   c20DrillConds       every `if` condition inside the drill closure of resolveComponent (source text)
+//   c20IsNilPointer     the body of isNilPointer (statements joined by "; ")
+//   c20PathItemIsEmpty  the fields (*PathItem).isEmpty looks at, in order (path_item.go)
+//   c20PathItemOps      the operation fields (*PathItem).Operations() collects, in order
+//   c20DerefCalls       (caller, callee) between InternalizeRefs / deref… functions of internalize_refs.go
+//   c20DerefGuards      (function, isVisited… method) for every deref… function that consults a visited set
 
 import (
 	"fmt"
@@ -64,7 +73,9 @@ func extractC20Loader(repo string) (string, error) {
 		f, err := parser.ParseFile(fset, fn, src, 0)
 		return fset, f, src, err
 	}
-	var resolvers, readable, otherAsserts, panics, edges []string
+	var resolvers, readable, otherAsserts, panics, edges, emptyChecks, drillConds, derefCalls, derefGuards []string
+	isNilBody := ""
+	oneLine := func(t string) string { return strings.Join(strings.Fields(t), " ") }
 	selectors := func(f *ast.File, want func(fn string) bool) []string {
 		set := map[string]bool{}
 		for _, d := range f.Decls {
@@ -151,6 +162,42 @@ func extractC20Loader(repo string) (string, error) {
 			return true
 		})
 		if isResolver {
+			cond := ""
+			if len(fd.Body.List) > 0 {
+				if is, ok := fd.Body.List[0].(*ast.IfStmt); ok && is.Init == nil {
+					cond = oneLine(c20Src(fset, src, is.Cond))
+				}
+			}
+			emptyChecks = append(emptyChecks, fmt.Sprintf("(%q, %q)", name, cond))
+		}
+		if name == "resolveComponent" {
+			ast.Inspect(fd.Body, func(n ast.Node) bool {
+				as, ok := n.(*ast.AssignStmt)
+				if !ok || len(as.Lhs) != 1 || len(as.Rhs) != 1 {
+					return true
+				}
+				id, ok := as.Lhs[0].(*ast.Ident)
+				fl, ok2 := as.Rhs[0].(*ast.FuncLit)
+				if !ok || !ok2 || id.Name != "drill" {
+					return true
+				}
+				ast.Inspect(fl.Body, func(m ast.Node) bool {
+					if is, ok := m.(*ast.IfStmt); ok {
+						drillConds = append(drillConds, fmt.Sprintf("%q", oneLine(c20Src(fset, src, is.Cond))))
+					}
+					return true
+				})
+				return false
+			})
+		}
+		if name == "isNilPointer" {
+			var parts []string
+			for _, st := range fd.Body.List {
+				parts = append(parts, oneLine(c20Src(fset, src, st)))
+			}
+			isNilBody = strings.Join(parts, "; ")
+		}
+		if isResolver {
 			if resolvedTy == "" || nAssertInCallback != 1 {
 				resolvers = append(resolvers, fmt.Sprintf("⟨%q, \"unrecognised\", %q, false⟩", name, pos(fd)+" "+asserted))
 			} else {
@@ -168,9 +215,38 @@ func extractC20Loader(repo string) (string, error) {
 			})
 		}
 	}
-	loaderSel := selectors(lf, func(fn string) bool {
-		return fn == "ResolveRefsIn" || (strings.HasPrefix(fn, "resolve") && strings.HasSuffix(fn, "Ref") && fn != "resolveRef")
-	})
+	// the loader's walk: ResolveRefsIn and every resolve… method it reaches, without the drill machinery
+	machinery := map[string]bool{"resolveComponent": true, "resolveRefAndDocument": true, "resolveRef": true, "resolveRefPath": true}
+	bodies := map[string]*ast.FuncDecl{}
+	for _, d := range lf.Decls {
+		if fd, ok := d.(*ast.FuncDecl); ok && fd.Body != nil {
+			bodies[fd.Name.Name] = fd
+		}
+	}
+	walk := map[string]bool{}
+	var visit func(fn string)
+	visit = func(fn string) {
+		fd, ok := bodies[fn]
+		if !ok || walk[fn] {
+			return
+		}
+		walk[fn] = true
+		ast.Inspect(fd.Body, func(n ast.Node) bool {
+			if ce, ok := n.(*ast.CallExpr); ok {
+				if se, ok := ce.Fun.(*ast.SelectorExpr); ok && strings.HasPrefix(se.Sel.Name, "resolve") && !machinery[se.Sel.Name] {
+					visit(se.Sel.Name)
+				}
+			}
+			return true
+		})
+	}
+	visit("ResolveRefsIn")
+	var walkFuncs []string
+	for fn := range walk {
+		walkFuncs = append(walkFuncs, fmt.Sprintf("%q", fn))
+	}
+	sort.Strings(walkFuncs)
+	loaderSel := selectors(lf, func(fn string) bool { return walk[fn] })
 
 	// ---- internalize_refs.go
 	ifset, inf, _, err := parse("internalize_refs.go")
@@ -183,10 +259,22 @@ func extractC20Loader(repo string) (string, error) {
 		if !ok || fd.Body == nil {
 			continue
 		}
+		isWalk := fd.Name.Name == "InternalizeRefs" || strings.HasPrefix(fd.Name.Name, "deref")
+		seenCallee := map[string]bool{}
 		ast.Inspect(fd.Body, func(n ast.Node) bool {
 			if ce, ok := n.(*ast.CallExpr); ok {
 				if id, ok := ce.Fun.(*ast.Ident); ok && id.Name == "panic" {
 					panics = append(panics, fmt.Sprintf("(%q, %q)", "internalize_refs.go", fd.Name.Name))
+				}
+				if se, ok := ce.Fun.(*ast.SelectorExpr); ok && isWalk {
+					if strings.HasPrefix(se.Sel.Name, "deref") && !seenCallee[se.Sel.Name] {
+						seenCallee[se.Sel.Name] = true
+						derefCalls = append(derefCalls, fmt.Sprintf("(%q, %q)", fd.Name.Name, se.Sel.Name))
+					}
+					if strings.HasPrefix(se.Sel.Name, "isVisited") && !seenCallee[se.Sel.Name] {
+						seenCallee[se.Sel.Name] = true
+						derefGuards = append(derefGuards, fmt.Sprintf("(%q, %q)", fd.Name.Name, se.Sel.Name))
+					}
 				}
 			}
 			return true
@@ -195,6 +283,34 @@ func extractC20Loader(repo string) (string, error) {
 	internSel := selectors(inf, func(fn string) bool {
 		return fn == "InternalizeRefs" || strings.HasPrefix(fn, "deref") || (strings.HasPrefix(fn, "add") && strings.HasSuffix(fn, "ToSpec"))
 	})
+
+	// ---- path_item.go: isEmpty and Operations
+	var piEmpty, piOps []string
+	if _, pf, _, err := parse("path_item.go"); err == nil {
+		for _, d := range pf.Decls {
+			fd, ok := d.(*ast.FuncDecl)
+			if !ok || fd.Body == nil || fd.Recv == nil {
+				continue
+			}
+			if fd.Name.Name != "isEmpty" && fd.Name.Name != "Operations" {
+				continue
+			}
+			ast.Inspect(fd.Body, func(n ast.Node) bool {
+				if se, ok := n.(*ast.SelectorExpr); ok {
+					if id, ok := se.X.(*ast.Ident); ok && id.Name == "pathItem" {
+						if fd.Name.Name == "isEmpty" {
+							piEmpty = append(piEmpty, fmt.Sprintf("%q", se.Sel.Name))
+						} else {
+							piOps = append(piOps, fmt.Sprintf("%q", se.Sel.Name))
+						}
+					}
+				}
+				return true
+			})
+		}
+	} else {
+		return "", err
+	}
 
 	// ---- schema.go: (*Schema).validate
 	sfset, sf, ssrc, err := parse("schema.go")
@@ -268,13 +384,22 @@ func extractC20Loader(repo string) (string, error) {
 	var sb strings.Builder
 	sb.WriteString("-- generated by go/cmd/extract (table C20Loader) from openapi3/loader.go, schema.go, internalize_refs.go — do not edit\n")
 	sb.WriteString("import KinModel.LoadTypes\nnamespace KinModel.Gen\nopen KinModel.LoadTypes\n\n")
-	fmt.Fprintf(&sb, "-- rows: %d\n", len(resolvers)+len(readable)+len(otherAsserts)+len(panics)+len(edges)+len(loaderSel)+len(internSel))
+	fmt.Fprintf(&sb, "-- rows: %d\n", len(resolvers)+len(readable)+len(otherAsserts)+len(panics)+len(edges)+len(loaderSel)+len(internSel)+
+		len(walkFuncs)+len(emptyChecks)+len(drillConds)+1+len(derefCalls)+len(derefGuards)+len(piEmpty)+len(piOps))
 	sb.WriteString("def c20Resolvers : List ResolverRow := [\n  " + strings.Join(resolvers, ",\n  ") + "]\n\n")
 	sb.WriteString("def c20Readable : List String := [" + strings.Join(readable, ", ") + "]\n\n")
 	sb.WriteString("def c20OtherAsserts : List (String × String) := [\n  " + strings.Join(otherAsserts, ",\n  ") + "]\n\n")
 	sb.WriteString("def c20ExplicitPanics : List (String × String) := [\n  " + strings.Join(panics, ",\n  ") + "]\n\n")
 	sb.WriteString("def c20ValidateEdges : List EdgeRow := [\n  " + strings.Join(edges, ",\n  ") + "]\n\n")
 	sb.WriteString("def c20LoaderSelectors : List String := [" + strings.Join(loaderSel, ", ") + "]\n\n")
-	sb.WriteString("def c20InternalizeSelectors : List String := [" + strings.Join(internSel, ", ") + "]\n\nend KinModel.Gen\n")
+	sb.WriteString("def c20InternalizeSelectors : List String := [" + strings.Join(internSel, ", ") + "]\n\n")
+	sb.WriteString("def c20WalkFuncs : List String := [" + strings.Join(walkFuncs, ", ") + "]\n\n")
+	sb.WriteString("def c20EmptyChecks : List (String × String) := [\n  " + strings.Join(emptyChecks, ",\n  ") + "]\n\n")
+	sb.WriteString("def c20DrillConds : List String := [\n  " + strings.Join(drillConds, ",\n  ") + "]\n\n")
+	fmt.Fprintf(&sb, "def c20IsNilPointer : String := %q\n\n", isNilBody)
+	sb.WriteString("def c20PathItemIsEmpty : List String := [" + strings.Join(piEmpty, ", ") + "]\n\n")
+	sb.WriteString("def c20PathItemOps : List String := [" + strings.Join(piOps, ", ") + "]\n\n")
+	sb.WriteString("def c20DerefCalls : List (String × String) := [\n  " + strings.Join(derefCalls, ",\n  ") + "]\n\n")
+	sb.WriteString("def c20DerefGuards : List (String × String) := [\n  " + strings.Join(derefGuards, ",\n  ") + "]\n\nend KinModel.Gen\n")
 	return sb.String(), nil
 }
